@@ -1,5 +1,86 @@
-/- Line-protocol handler for C09 (stub until the model exists). -/
-import NoulithModel.Common
+/- Line-protocol handler for C09.  Values in the canonical text of `vharness::canon` (parser and
+printer shared with the C08 driver).  Every request carries the dictionary state it applies to:
+
+  lit <default|-> <list of [k,v]>      idx|sidx|in|rem|addk|delk <dict> <key>
+  set <dict> <key> <value>             opa <dict> <key> <pair|left|right|fail> <value>
+  union|inter|diff|uadd|eq <a> <b>     insp <dict> <pair>
+  mkset|mkdict|uniq|freq|cdist|group|classify|memo <list>
+  keys|values|items|len <dict>
+Response: `<impl>\t<spec>\t-`; results whose order comes out of a `HashMap` are sorted by text. -/
+import NoulithModel.Driver.C08
+import NoulithModel.Spec.DictSpec
+
 namespace Noulith.DriverC09
-def handle (_args : List String) : String := "bad-op"
+open Noulith Noulith.DriverC08
+
+def sortList : Val → Val
+  | .list xs =>
+    let keyed := xs.map fun v => (renderVal v, v)
+    .list ((keyed.mergeSort fun a b => decide (a.1 ≤ b.1)).map (·.2))
+  | v => v
+
+def both (f : (Val → Val → Bool) → Out Val) (post : Val → Val := id) : String :=
+  renderOut ((f keyHit).map post) ++ "\t" ++ renderOut ((f DictSpec.hit).map post) ++ "\t-"
+
+def listOf : Val → Option (List Val)
+  | .list xs => some xs
+  | _ => none
+
+def entriesOf (v : Val) : Option Entries :=
+  match v with
+  | .list xs => DictOps.pairsOf xs
+  | _ => none
+
+def handle (args : List String) : String :=
+  match args with
+  | ["lit", d, l] =>
+    match (if d == "-" then some none else (parseVal d).map some), (parseVal l).bind entriesOf with
+    | some dflt, some ps => both fun h => DictOps.literal h dflt ps
+    | _, _ => "bad-op"
+  | [op, a, b] =>
+    match parseVal a, parseVal b with
+    | some x, some y =>
+      match op with
+      | "idx" => both fun h => DictOps.index h x y
+      | "sidx" => both fun h => DictOps.safeIndex h x y
+      | "in" => both fun h => DictOps.isIn h x y
+      | "rem" => both fun h => DictOps.remove h x y
+      | "addk" => both fun h => DictOps.addKey h x y
+      | "delk" => both fun h => DictOps.delKey h x y
+      | "union" => both fun h => DictOps.union h x y
+      | "inter" => both fun h => DictOps.inter h x y
+      | "diff" => both fun h => DictOps.diff h x y
+      | "uadd" => both fun h => DictOps.unionAdd h x y
+      | "insp" => both fun h => DictOps.insertPair h x y
+      | "eq" => renderOut (.ok (ofBool (valEq x y))) ++ "\t" ++ renderOut (.ok (ofBool (OrdSpec.eq x y))) ++ "\t-"
+      | _ => "bad-op"
+    | _, _ => "bad-op"
+  | ["set", d, k, v] =>
+    match parseVal d, parseVal k, parseVal v with
+    | some d, some k, some v => both fun h => DictOps.setIndex h d k v
+    | _, _, _ => "bad-op"
+  | ["opa", d, k, f, v] =>
+    match parseVal d, parseVal k, parseVal v with
+    | some d, some k, some v => both fun h => DictOps.opAssign h d k f v
+    | _, _, _ => "bad-op"
+  | [op, a] =>
+    match parseVal a with
+    | some x =>
+      match op, listOf x with
+      | "mkset", some xs => both fun h => DictOps.mkSet h xs
+      | "mkdict", some xs => both fun h => DictOps.mkDict h xs
+      | "uniq", some xs => both fun h => DictOps.unique h xs
+      | "freq", some xs => both fun h => DictOps.frequencies h xs
+      | "cdist", some xs => both fun h => DictOps.countDistinct h xs
+      | "group", some xs => both (fun h => DictOps.groupAll h xs) sortList
+      | "classify", some xs => both fun h => DictOps.classify h xs
+      | "memo", some xs => both fun h => DictOps.memoize h xs
+      | "keys", _ => both (fun _ => DictOps.keys x) sortList
+      | "values", _ => both (fun _ => DictOps.values x) sortList
+      | "items", _ => both (fun _ => DictOps.items x) sortList
+      | "len", _ => both fun _ => DictOps.len x
+      | _, _ => "bad-op"
+    | none => "bad-op"
+  | _ => "bad-op"
+
 end Noulith.DriverC09
